@@ -615,6 +615,105 @@ def run(ctx, col: Collector):
         col.floor('C08-partial', 'literal lookup tables', n, 1)
     guarded(col, 'C08-partial', 'lookup-tables', lookup_tables)
 
+    def preconditions():
+        # a listed raise is excused by what its callers pass: doublequote_string raises ValueError on a line break, which is unreachable only while every
+        # call site passes a value read from the single-line identifier token.  Each call site is resolved to (model class, attribute) and compared with
+        # the token class the grammar feeds that attribute from.
+        from .. import flows
+        rc = flows.reader_classes(ctx)
+        envs = flows.build_envs(ctx, ('pydbml.renderer.', 'pydbml._classes.'))
+        n = 0
+        for fid, fi in sorted(funcs.items()):
+            for c in walk_no_nested(fi.node):
+                if not (isinstance(c, ast.Call) and norm(c.func).split('.')[-1] == 'doublequote_string' and c.args):
+                    continue
+                n += 1
+                cons = f'{fi.qualname}:doublequote_string({norm(c.args[0])[:40]})'
+                ap = access_path(c.args[0])
+                if not ap or '.' not in ap:
+                    col.unk('C08-precondition', cons, f'{fi.qualname} passes `{norm(c.args[0])}` to doublequote_string; cannot tell which attribute that is', node=c, file=fi.file)
+                    continue
+                obj, attr = ap.rsplit('.', 1)
+                pairs_ = {(idx.classes[t].name, attr) for t in flows.type_of_path(ctx, fi, obj, envs.get(fi.id))}
+                if not pairs_:
+                    col.unk('C08-precondition', cons, f'{fi.qualname} passes `{ap}` to doublequote_string; the class of `{obj}` is not known', node=c, file=fi.file)
+                    continue
+                verdict = 'ok'
+                why = []
+                for pr in sorted(pairs_):
+                    cls = rc.get(pr)
+                    if cls is None:
+                        verdict = 'unk' if verdict == 'ok' else verdict
+                        why.append(f'{pr[0]}.{pr[1]}: source token unknown')
+                    elif any('text' in k for k in cls):
+                        verdict = 'bad'
+                        why.append(f'{pr[0]}.{pr[1]} is read from a string literal, which may contain a line break (escape \\n or a triple-quoted literal)')
+                    elif cls <= {'ident'}:
+                        why.append(f'{pr[0]}.{pr[1]}: identifier token')
+                    else:
+                        verdict = 'unk' if verdict == 'ok' else verdict
+                        why.append(f'{pr[0]}.{pr[1]}: token classes {sorted(cls)}')
+                if verdict == 'ok':
+                    col.ok('C08-precondition', cons, '; '.join(why), node=c, file=fi.file)
+                elif verdict == 'bad':
+                    col.bad('C08-precondition', cons, f'{fi.qualname} calls doublequote_string, which raises ValueError on a line break, with `{ap}`: ' + '; '.join(why)
+                            + ' - a document that parses makes the rendering escape with ValueError', node=c, file=fi.file)
+                else:
+                    col.unk('C08-precondition', cons, f'{fi.qualname} calls doublequote_string with `{ap}`: ' + '; '.join(why), node=c, file=fi.file)
+        col.floor('C08-precondition', 'call sites of doublequote_string', n, 2)
+    guarded(col, 'C08-precondition', 'preconditions', preconditions)
+
+    def required_check():
+        # `.sql` first calls check_attributes_for_sql.  For a parsed database every required attribute is set, but possibly to a falsy value: the quoted
+        # alternative of the name token accepts `""`.  The check may therefore test for None only; a truth-value test makes an empty name "missing" and `.sql`
+        # of a database that parsed raises.
+        fi = idx.func('pydbml._classes.base', 'SQLObject.check_attributes_for_sql')
+        name_tok = gm.var('generic', 'name')
+        can_be_empty = any(k.kind == 'quoted' for k in gt.walk(name_tok))
+        tests: List[ast.AST] = []
+        for n in ast.walk(fi.node):
+            if isinstance(n, (ast.If, ast.IfExp, ast.While)):
+                tests.append(n.test)
+            elif isinstance(n, ast.comprehension):
+                tests += n.ifs
+            elif isinstance(n, ast.Assert):
+                tests.append(n.test)
+
+        def atoms(e):
+            if isinstance(e, ast.BoolOp):
+                return [a for v in e.values for a in atoms(v)]
+            if isinstance(e, ast.UnaryOp) and isinstance(e.op, ast.Not):
+                return atoms(e.operand)
+            return [e]
+
+        def is_read(c):
+            return isinstance(c, ast.Call) and norm(c.func) == 'getattr' and c.args and norm(c.args[0]) == 'self'
+        held = {n.targets[0].id for n in ast.walk(fi.node) if isinstance(n, ast.Assign) and len(n.targets) == 1 and isinstance(n.targets[0], ast.Name) and is_read(n.value)}
+        held |= {n.target.id for n in ast.walk(fi.node) if isinstance(n, ast.NamedExpr) and is_read(n.value)}
+
+        def reads_attr(e):
+            return any(is_read(c) or (isinstance(c, ast.Name) and c.id in held) for c in ast.walk(e))
+        n = 0
+        for t in tests:
+            for a in atoms(t):
+                if not reads_attr(a):
+                    continue
+                n += 1
+                cons = f'check_attributes_for_sql:{norm(a)[:50]}'
+                if isinstance(a, ast.Compare) and len(a.ops) == 1 and isinstance(a.ops[0], (ast.Is, ast.IsNot, ast.Eq, ast.NotEq)) \
+                        and isinstance(a.comparators[0], ast.Constant) and a.comparators[0].value is None:
+                    col.ok('C08-required', cons, 'the required-attribute check tests for None only', node=a, file=fi.file)
+                elif is_read(a) or (isinstance(a, ast.Name) and a.id in held):
+                    if can_be_empty:
+                        col.bad('C08-required', cons, f'check_attributes_for_sql tests the truth value of `{norm(a)}`: the name token accepts `""`, so a document that '
+                                f'parses (an element named "") makes `.sql` raise AttributeMissingError', node=a, file=fi.file)
+                    else:
+                        col.unk('C08-required', cons, f'check_attributes_for_sql tests the truth value of `{norm(a)}`; cannot tell whether a parsed value can be falsy', node=a, file=fi.file)
+                else:
+                    col.unk('C08-required', cons, f'check_attributes_for_sql tests `{norm(a)}`, which is neither a None test nor a truth-value test', node=a, file=fi.file)
+        col.floor('C08-required', 'tests on required attributes', n, 1)
+    guarded(col, 'C08-required', 'required-check', required_check)
+
 
 def format_taint(ctx, fi: FuncInfo, recv: ast.AST, funcs: Dict[str, FuncInfo], depth: int = 0) -> List[str]:
     """Un-escaped data interpolations that can reach the string `recv` (a template for str.format)."""
